@@ -13,6 +13,7 @@
   frame lemma, which holds for EVERY `b' ≠ a` (`BoundTo.of_frames`).
 -/
 import Wormhole.Inv.IsoFrameCore
+import Wormhole.Inv.WFDec
 
 set_option linter.unusedSimpArgs false
 set_option linter.unusedVariables false
@@ -480,6 +481,23 @@ theorem onMessage_hf (h : s.Full U t S) {b a : String} {c : Nat} {ids : List Nat
       rw [hxa] at happ; cases happ
       exact handleClose_hf h0 hF hxa0 hab hc _ m mood (fun mb e => hu mb (by simp [Cmd.mailboxIds, e]))
 
+
+/-- a connection bound to `a` stays bound to `a` -/
+theorem onMessage_appOf_bound (h : s.Full U t S) {a : String} {c : Nat} {x : Conn}
+    (hfx : s.findConn c = some x) (hxa : x.app = some a) (id : Val) (cmd : Cmd)
+    (hu : ∀ m ∈ cmd.mailboxIds, U m) : (s.onMessage c t id cmd).appOf c = some a := by
+  have hx : x ∈ s.conns := findConn_mem' hfx
+  have hid : x.id = c := findConn_id' hfx
+  have hf := onMessage_hf (b := a ++ "x") (ids := s.conns.map (·.id)) h hfx hxa (exists_ne_string a) id cmd hu
+    (by rw [← hid]; exact List.mem_map_of_mem hx) (fun y hy _ => List.mem_map_of_mem hy)
+  have hfind := All2.find? (fun y => decide (y.id = c)) (fun y => decide (y.id = c)) hf.fr.conns
+    (fun y _ y' _ r => by rw [r.1])
+  rcases hfind with ⟨h1, _⟩ | ⟨y, y', h1, h2, _⟩
+  · have : s.findConn c = none := h1
+    rw [hfx] at this; cases this
+  · have h2' : (s.onMessage c t id cmd).findConn c = some y' := h2
+    exact appOf_eq_some.2 ⟨y', h2', hf.bd y' (findConn_mem' h2') (findConn_id' h2')⟩
+
 /-- a command other than `bind` on an unbound connection is refused: the connection table is as
     before -/
 theorem onMessage_unbound_conns {c : Nat} {x : Conn} (hfx : s.findConn c = some x) (hxa : x.app = none)
@@ -500,18 +518,133 @@ theorem onMessage_unbound_conns {c : Nat} {x : Conn} (hfx : s.findConn c = some 
     rw [hxa]
     rfl
 
-/-- **the frame theorem of the websocket layer**: a command whose connection is bound to an app
-    other than `b` once the command has been processed does not touch anything of app `b`, and
-    all its frames go to connections bound to other apps -/
-theorem onMessage_frameB (h : s.Full U t S) (b : String) (c : Nat) (id : Val) (cmd : Cmd)
-    (hu : ∀ m ∈ cmd.mailboxIds, U m)
-    (ho : ∀ a, (s.onMessage c t id cmd).appOf c = some a → a ≠ b)
-    (hs : (s.onMessage c t id cmd).appOf c ≠ none) :
+/-- `handle_bind` accepts: no app id yet, no non-empty side yet, both keys present -/
+theorem handleBind_accept {s0 : Sys} {x : Conn} (t' : Time) {aa sd' : String} (i v : Option String)
+    (hxa : x.app = none) (hside : ¬ (x.side.isSome ∧ x.side ≠ some "")) :
+    s0.handleBind x t' (some aa) (some sd') i v =
+      (s0.updConn x.id (fun y => { y with app := some aa, side := some sd' })).logClientVersion aa sd' t' i v := by
+  unfold Sys.handleBind
+  rw [if_neg]
+  rintro (h | h)
+  · simp [hxa] at h
+  · exact hside h
+
+/-- `handle_bind` refuses: the connection table is as before -/
+theorem handleBind_reject_conns {s0 : Sys} {x : Conn} (t' : Time) (a' sd i v : Option String)
+    (hn : ¬ ∃ aa sd', a' = some aa ∧ sd = some sd' ∧ ¬ (x.side.isSome ∧ x.side ≠ some "")) :
+    (s0.handleBind x t' a' sd i v).conns = s0.conns := by
+  unfold Sys.handleBind
+  split
+  · rfl
+  · rename_i hg
+    split
+    · rfl
+    · split
+      · rfl
+      · exact absurd ⟨_, _, rfl, rfl, fun hh => hg (Or.inr hh)⟩ hn
+
+/-- the accepted `bind` of an unbound connection to an app `aa`: the connection is bound to `aa`
+    afterwards; if `aa ≠ b` nothing of `b` is touched -/
+theorem onMessage_bind_spec (h : s.Full U t S) {c : Nat} {x : Conn} (hfx : s.findConn c = some x)
+    (hxa : x.app = none) (hside : ¬ (x.side.isSome ∧ x.side ≠ some "")) (id : Val) (aa sd' : String)
+    (i v : Option String) :
+    (s.onMessage c t id (.bind (some aa) (some sd') i v)).appOf c = some aa ∧
+    ∀ b, aa ≠ b → FrameB b s (s.onMessage c t id (.bind (some aa) (some sd') i v)) ∧
+      OutExt (FrameTo (otherIds b (s.onMessage c t id (.bind (some aa) (some sd') i v)).conns)) s
+        (s.onMessage c t id (.bind (some aa) (some sd') i v)) := by
+  have hx : x ∈ s.conns := findConn_mem' hfx
+  have hid : x.id = c := findConn_id' hfx
+  have e : s.onMessage c t id (.bind (some aa) (some sd') i v) =
+      ((s.send c (.ack id)).updConn x.id (fun y => { y with app := some aa, side := some sd' })).logClientVersion
+        aa sd' t i v := by
+    unfold Sys.onMessage
+    rw [hfx]
+    exact handleBind_accept t i v hxa hside
+  have hconns : (s.onMessage c t id (.bind (some aa) (some sd') i v)).conns =
+      s.conns.map (fun y => if y.id = x.id then { y with app := some aa, side := some sd' } else y) := by
+    rw [e, logClientVersion_conns]; rfl
+  have happ : (s.onMessage c t id (.bind (some aa) (some sd') i v)).appOf c = some aa := by
+    unfold appOf findConn
+    rw [hconns, find?_id_map _ (fun y => by split <;> rfl) c]
+    have : s.conns.find? (fun y => decide (y.id = c)) = some x := hfx
+    rw [this]
+    simp
+  refine ⟨happ, ?_⟩
+  intro b hab
+  have hcids := mem_otherIds_of_appOf happ hab
+  rw [e] at hcids ⊢
+  refine ⟨?_, ?_⟩
+  · refine ((frameB_send b s c (.ack id)).trans (frameB_updConn x.id _ ?_)).trans
+      (logClientVersion_frameB' hab sd' t i v)
+    intro y hy hyid
+    have : y = x := Chan.eq_of_pairwise_ne (f := Conn.id) h.ids hy hx hyid
+    subst this
+    exact ⟨by rw [hxa]; simp, ⟨aa, rfl, hab⟩, rfl⟩
+  · have ox : OutExt (FrameTo (otherIds b (((s.send c (.ack id)).updConn x.id
+        (fun y => { y with app := some aa, side := some sd' })).logClientVersion aa sd' t i v).conns)) s
+        (s.send c (.ack id)) := OutExt.refl.send (fun _ => hcids)
+    exact ox.trans (CExt.logClientVersion (OutExt.updConn (OutExt.refl (s := s.send c (.ack id))))).frameTo
+
+/-- what `otherOp` (decided on the state before) says -/
+theorem otherOp_recv_cases {b : String} {c : Nat} {t' : Time} {id : Val} {cmd : Cmd}
+    (ho : s.otherOp b (.recv c t' id cmd) = true) :
+    ∃ x, s.findConn c = some x ∧
+      ((∃ a, x.app = some a ∧ a ≠ b) ∨
+       (x.app = none ∧ ¬ (x.side.isSome ∧ x.side ≠ some "") ∧
+          ∃ aa sd' i v, cmd = .bind (some aa) (some sd') i v ∧ aa ≠ b)) := by
+  cases hfx : s.findConn c with
+  | none => simp [otherOp, hfx] at ho
+  | some x =>
+    refine ⟨x, rfl, ?_⟩
+    cases hxa : x.app with
+    | some a =>
+      simp only [otherOp, hfx, hxa, decide_eq_true_eq] at ho
+      exact Or.inl ⟨a, rfl, ho⟩
+    | none =>
+      simp only [otherOp, hfx, hxa] at ho
+      split at ho
+      · rename_i aa sd' i v
+        simp only [Bool.and_eq_true, decide_eq_true_eq, Bool.not_eq_eq_eq_not, Bool.not_true,
+          decide_eq_false_iff_not] at ho
+        exact Or.inr ⟨rfl, ho.2, aa, sd', i, v, rfl, ho.1⟩
+      · cases ho
+
+/-- **(pre-state form)** a command of another app (`otherOp`, decided before the command runs):
+    its connection is bound to an app other than `b` afterwards, nothing of `b` is touched, and
+    all frames go to connections bound to other apps -/
+theorem onMessage_frameB_pre (h : s.Full U t S) (b : String) (c : Nat) (id : Val) (cmd : Cmd)
+    (hu : ∀ m ∈ cmd.mailboxIds, U m) (ho : s.otherOp b (.recv c t id cmd) = true) :
+    (∃ a, (s.onMessage c t id cmd).appOf c = some a ∧ a ≠ b) ∧
     FrameB b s (s.onMessage c t id cmd) ∧
       OutExt (FrameTo (otherIds b (s.onMessage c t id cmd).conns)) s (s.onMessage c t id cmd) := by
+  obtain ⟨x, hfx, hcase⟩ := otherOp_recv_cases ho
+  have hx : x ∈ s.conns := findConn_mem' hfx
+  have hid : x.id = c := findConn_id' hfx
+  rcases hcase with ⟨a, hxa, hab⟩ | ⟨hxa, hside, aa, sd', i, v, rfl, hab⟩
+  · have happ := onMessage_appOf_bound h hfx hxa id cmd hu
+    have hfr := (onMessage_hf (b := b) (ids := s.conns.map (·.id)) h hfx hxa hab id cmd hu
+      (by rw [← hid]; exact List.mem_map_of_mem hx) (fun y hy _ => List.mem_map_of_mem hy)).fr
+    refine ⟨⟨a, happ, hab⟩, hfr, ?_⟩
+    exact (onMessage_hf (b := b) h hfx hxa hab id cmd hu (mem_otherIds_of_appOf happ hab)
+      (fun y hy hya => hfr.mem_otherIds hab hy hya)).out
+  · obtain ⟨happ, hrest⟩ := onMessage_bind_spec h hfx hxa hside id aa sd' i v
+    exact ⟨⟨aa, happ, hab⟩, hrest b hab⟩
+
+/-- `otherOp` (pre-state) implies the post-state condition -/
+theorem otherOp_post (h : s.Full U t S) {b : String} {c : Nat} {id : Val} {cmd : Cmd}
+    (hu : ∀ m ∈ cmd.mailboxIds, U m) (ho : s.otherOp b (.recv c t id cmd) = true) :
+    ∃ a, (s.onMessage c t id cmd).appOf c = some a ∧ a ≠ b :=
+  (onMessage_frameB_pre h b c id cmd hu ho).1
+
+/-- conversely: if the acting connection is bound to an app other than `b` AFTER the command, the
+    command is an `otherOp` (a connection's app never changes once set; only an accepted `bind`
+    sets it) -/
+theorem otherOp_of_post (h : s.Full U t S) {b : String} {c : Nat} {id : Val} {cmd : Cmd}
+    (hu : ∀ m ∈ cmd.mailboxIds, U m)
+    (ho : ∀ a, (s.onMessage c t id cmd).appOf c = some a → a ≠ b)
+    (hs : (s.onMessage c t id cmd).appOf c ≠ none) : s.otherOp b (.recv c t id cmd) = true := by
   obtain ⟨a1, ha1⟩ := Option.ne_none_iff_exists'.1 hs
   have hab1 : a1 ≠ b := ho a1 ha1
-  have hcids : c ∈ otherIds b (s.onMessage c t id cmd).conns := mem_otherIds_of_appOf ha1 hab1
   cases hfx : s.findConn c with
   | none =>
     exfalso
@@ -519,20 +652,239 @@ theorem onMessage_frameB (h : s.Full U t S) (b : String) (c : Nat) (id : Val) (c
     rw [e, appOf, hfx] at ha1
     cases ha1
   | some x =>
-    have hx : x ∈ s.conns := findConn_mem' hfx
-    have hid : x.id = c := findConn_id' hfx
     cases hxa : x.app with
     | some a =>
-      -- bound before: the app is kept, so it is `a1`
-      have hbd : BoundTo c a (s.onMessage c t id cmd) :=
-        (onMessage_hf (b := a ++ "x") (ids := [c]) h hfx hxa (exists_ne_string a) id cmd hu (by simp)
-          (fun y hy hya => by
-            have := Chan.eq_of_pairwise_ne (f := Conn.id) h.ids hy hx
-            sorry)).bd
-      sorry
-    | none => sorry
+      have happ := onMessage_appOf_bound h hfx hxa id cmd hu
+      rw [ha1] at happ
+      cases happ
+      simp only [otherOp, hfx, hxa, decide_eq_true_eq]
+      exact hab1
+    | none =>
+      by_cases hb : ∃ a' sd i v, cmd = .bind a' sd i v
+      · obtain ⟨a', sd, i, v, rfl⟩ := hb
+        by_cases hacc : ∃ aa sd', a' = some aa ∧ sd = some sd' ∧ ¬ (x.side.isSome ∧ x.side ≠ some "")
+        · obtain ⟨aa, sd', rfl, rfl, hside⟩ := hacc
+          have happ := (onMessage_bind_spec h hfx hxa hside id aa sd' i v).1
+          rw [ha1] at happ
+          cases happ
+          simp only [otherOp, hfx, hxa, Bool.and_eq_true, decide_eq_true_eq, Bool.not_eq_eq_eq_not, Bool.not_true,
+            decide_eq_false_iff_not]
+          exact ⟨hab1, hside⟩
+        · exfalso
+          have hc : (s.onMessage c t id (.bind a' sd i v)).conns = s.conns := by
+            unfold Sys.onMessage
+            rw [hfx]
+            exact handleBind_reject_conns (s0 := s.send c (.ack id)) t a' sd i v hacc
+          rw [appOf_of_conns_eq hc, appOf, hfx] at ha1
+          simp [hxa] at ha1
+      · exfalso
+        have hc := onMessage_unbound_conns (t := t) hfx hxa id cmd (fun a sd i v e => hb ⟨a, sd, i, v, e⟩)
+        rw [appOf_of_conns_eq hc, appOf, hfx] at ha1
+        simp [hxa] at ha1
+
+/-- **the frame theorem of the websocket layer** (post-state form): a command whose connection is
+    bound to an app other than `b` once the command has been processed does not touch anything of
+    app `b`, and all its frames go to connections bound to other apps -/
+theorem onMessage_frameB (h : s.Full U t S) (b : String) (c : Nat) (id : Val) (cmd : Cmd)
+    (hu : ∀ m ∈ cmd.mailboxIds, U m)
+    (ho : ∀ a, (s.onMessage c t id cmd).appOf c = some a → a ≠ b)
+    (hs : (s.onMessage c t id cmd).appOf c ≠ none) :
+    FrameB b s (s.onMessage c t id cmd) ∧
+      OutExt (FrameTo (otherIds b (s.onMessage c t id cmd).conns)) s (s.onMessage c t id cmd) :=
+  (onMessage_frameB_pre h b c id cmd hu (otherOp_of_post h hu ho hs)).2
 
 end onMessage
 
+/-! ### one `recv` step from a state satisfying the global invariant -/
+
+section recv
+
+theorem frameB_cleared (b : String) (g : GSys) : FrameB b g.sys g.cleared := FrameB.of_eq rfl rfl rfl rfl
+
+theorem step_recv_eq (s : Sys) (c : Nat) (t : Time) (id : Val) (cmd : Cmd) :
+    s.step (.recv c t id cmd) = ({ s with out := [], snaps := [] } : Sys).onMessage c t id cmd := rfl
+
+theorem otherOp_cleared (b : String) (g : GSys) (op : Op) : g.cleared.otherOp b op = g.sys.otherOp b op := by
+  cases op <;> rfl
+
+/-- **C06, one step**: a `recv` of another app (`otherOp`), from any state satisfying the global
+    invariant: b's rows, b's usage rows, b's connections are untouched; every frame of the step
+    goes to a connection bound to another app; the acting connection is bound to an app other
+    than `b` afterwards -/
+theorem recv_frameB {g : GSys} (hI : g.GInv) (b : String) {c : Nat} {t : Time} {id : Val} {cmd : Cmd}
+    (hw : g.WFOp (.recv c t id cmd)) (ho : g.sys.otherOp b (.recv c t id cmd) = true) :
+    FrameB b g.sys (g.sys.step (.recv c t id cmd)) ∧
+      OutExt (FrameTo (otherIds b (g.sys.step (.recv c t id cmd)).conns)) g.cleared
+        (g.sys.step (.recv c t id cmd)) ∧
+      ∃ a, (g.sys.step (.recv c t id cmd)).appOf c = some a ∧ a ≠ b := by
+  have hF : g.cleared.Full (g.opU (.recv c t id cmd)) t False :=
+    hI.full (S := False) False.elim (.recv c t id cmd) hw.mono
+  rw [step_recv_eq]
+  obtain ⟨k1, k2, k3⟩ := onMessage_frameB_pre hF b c id cmd (fun m hm => List.mem_append_right _ hm)
+    (by rw [otherOp_cleared]; exact ho)
+  exact ⟨(frameB_cleared b g).trans k2, k3, k1⟩
+
+/-- every event of the step is a commit, an `internal`, or a frame to a connection bound to another app -/
+theorem recv_frameB_out {g : GSys} (hI : g.GInv) (b : String) {c : Nat} {t : Time} {id : Val} {cmd : Cmd}
+    (hw : g.WFOp (.recv c t id cmd)) (ho : g.sys.otherOp b (.recv c t id cmd) = true) :
+    ∀ e ∈ (g.sys.step (.recv c t id cmd)).out, FrameTo (otherIds b (g.sys.step (.recv c t id cmd)).conns) e := by
+  obtain ⟨_, ⟨l, e1, e2⟩, _⟩ := recv_frameB hI b hw ho
+  intro e he
+  rw [e1] at he
+  exact e2 e (by simpa using he)
+
+theorem recv_otherOp_post {g : GSys} (hI : g.GInv) (b : String) {c : Nat} {t : Time} {id : Val} {cmd : Cmd}
+    (hw : g.WFOp (.recv c t id cmd)) (ho : g.sys.otherOp b (.recv c t id cmd) = true) :
+    ∃ a, (g.sys.step (.recv c t id cmd)).appOf c = some a ∧ a ≠ b :=
+  (recv_frameB hI b hw ho).2.2
+
+end recv
+
+/-! ### the sweep over apps other than `b` -/
+
+theorem pruneApps_frameB {U : String → Prop} {t : Time} {S : Prop} {b : String} {now old : Time}
+    (hnow : now ≤ t) (hold : old < now) (l : List String) (hb : b ∉ l) :
+    ∀ {s s' : Sys} {r : Bool}, s.Good U t S → s.pruneApps now old l = (s', r) → FrameB b s s' := by
+  induction l with
+  | nil =>
+    intro s s' r _ e
+    simp only [pruneApps, Prod.mk.injEq] at e
+    obtain ⟨rfl, _⟩ := e
+    exact FrameB.refl _ _
+  | cons app rest ih =>
+    intro s s' r h e
+    have hne : app ≠ b := fun e' => hb (by simp [e'])
+    have hb' : b ∉ rest := fun h' => hb (by simp [h'])
+    unfold pruneApps at e
+    split at e
+    · rename_i s1 e1
+      cases e
+      exact prune_frameB h hne e1
+    · rename_i s1 e1
+      exact (prune_frameB h hne e1).trans (ih hb' (prune_good h hnow hold e1).1 e)
+
+/-! ### connect, drop: the connection table gains / loses a record that is not bound to `b` -/
+
+/-- `db`, `udb`, `cfg` are unchanged and so is the sub-table of the connections bound to `b` -/
+structure FrameConnB (b : String) (s s' : Sys) : Prop where
+  db : s'.db = s.db
+  udb : s'.udb = s.udb
+  cfg : s'.cfg = s.cfg
+  conns : s'.conns.filter (fun x => x.app = some b) = s.conns.filter (fun x => x.app = some b)
+
+theorem FrameConnB.sameB {b : String} {s s' : Sys} (h : FrameConnB b s s') :
+    Chan.SameB b s.db s'.db ∧ Usage.SameB b s.udb s'.udb := by
+  rw [h.db, h.udb]; exact ⟨Chan.SameB.refl _ _, Usage.SameB.refl _ _⟩
+
+/-- `onOpen`: the new record is unbound; the only frame is the welcome to the new connection -/
+theorem connect_frameB (b : String) (s : Sys) (c : Nat) : FrameConnB b s (s.connect c) := by
+  refine ⟨rfl, rfl, rfl, ?_⟩
+  simp [Sys.connect, Sys.send, Sys.emit, List.filter_append]
+
+theorem connect_out (s : Sys) (c : Nat) :
+    (s.connect c).out = s.out ++ [.frame c (.welcome s.cfg.welcome) (s.connect c).synced] := rfl
+
+/-- `onClose` of a connection that is not bound to `b` -/
+theorem dropConn_frameB {b : String} {s : Sys} {c : Nat} (h : ∀ x ∈ s.conns, x.id = c → x.app ≠ some b) :
+    FrameConnB b s (s.dropConn c) := by
+  refine ⟨rfl, rfl, rfl, ?_⟩
+  apply filter_filter_keep
+  intro x hx hp
+  simp only [decide_eq_true_eq] at hp
+  apply decide_eq_true
+  intro e
+  exact h x hx e hp
+
+theorem dropConn_out (s : Sys) (c : Nat) : (s.dropConn c).out = s.out := rfl
+
+/-- `onClose` of a connection of another app, in the terms of `otherIds` -/
+theorem dropConn_frameB_of_appOf {U : String → Prop} {t : Time} {S : Prop} {b : String} {s : Sys} {c : Nat}
+    (h : s.Full U t S) (hc : s.appOf c ≠ some b) : FrameConnB b s (s.dropConn c) := by
+  apply dropConn_frameB
+  intro x hx hid hxa
+  apply hc
+  have hfx : s.findConn c = some x := by
+    unfold findConn
+    cases hf : s.conns.find? (fun y => decide (y.id = c)) with
+    | none =>
+      have := List.find?_eq_none.1 hf x hx
+      simp [hid] at this
+    | some y =>
+      have hy := List.mem_of_find?_eq_some hf
+      have hyid : y.id = c := by simpa using List.find?_some hf
+      rw [Chan.eq_of_pairwise_ne (f := Conn.id) h.ids hy hx (hyid.trans hid.symm)]
+  exact appOf_eq_some.2 ⟨x, hfx, hxa⟩
+
 end Sys
+
+/-! ### non-vacuity: a REACHABLE two-app state with identical nameplate names, side strings and
+    message contents; an other-app `close` deletes everything of app "a" and nothing of app "b".
+    The state satisfies the hypotheses of `recv_frameB`, and its conclusion is also checked by
+    evaluation. -/
+
+namespace IsoFrameExample
+
+instance instDecidableFrameTo (ids : List Nat) : (e : Event) → Decidable (FrameTo ids e)
+  | .frame c _ _ => inferInstanceAs (Decidable (c ∈ ids))
+  | .commit _ => isTrue trivial
+  | .internal _ _ => isTrue trivial
+  | .fired _ _ => isTrue trivial
+
+def hist : List Op :=
+  [.connect 1, .connect 2,
+   .recv 1 1 .null (.bind (some "a") (some "s1") none none),
+   .recv 2 1 .null (.bind (some "b") (some "s1") none none),
+   .recv 1 2 .null (.claim (some "4") "m1"),
+   .recv 2 2 .null (.claim (some "4") "m2"),
+   .recv 1 3 .null (.open_ (some "m1")),
+   .recv 2 3 .null (.open_ (some "m2")),
+   .recv 1 4 .null (.add (some (.str "pake")) (some (.str "x"))),
+   .recv 2 4 .null (.add (some (.str "pake")) (some (.str "x")))]
+
+def g0 : GSys := (GSys.init { usage := true } 0).run hist
+
+def closeA : Op := .recv 1 10 .null (.close (some "m1") (some "happy"))
+
+/-- the hypotheses of `recv_frameB` hold: the state is reachable (hence `GInv`), the operation is
+    well-formed and is an operation of another app -/
+theorem g0_ginv : g0.GInv := (GSys.reach_of_wfB _ _ hist (by decide +kernel)).ginv
+theorem closeA_wf : g0.WFOp closeA := GSys.wfOpB_sound (by decide +kernel)
+theorem closeA_other : g0.sys.otherOp "b" closeA = true := by decide +kernel
+
+/-- both apps have a nameplate "4", a mailbox with side "s1", the same message -/
+example : g0.sys.db =
+    { nameplates := [⟨1, "a", "4", "m1"⟩, ⟨2, "b", "4", "m2"⟩]
+      npSides := [⟨1, true, "s1", 2⟩, ⟨2, true, "s1", 2⟩]
+      mailboxes := [⟨"a", "m1", 4, true⟩, ⟨"b", "m2", 4, true⟩]
+      mbSides := [⟨"m1", true, "s1", 2, none⟩, ⟨"m2", true, "s1", 2, none⟩]
+      messages := [⟨"a", "m1", "s1", .str "pake", .str "x", 4, .null⟩,
+                   ⟨"b", "m2", "s1", .str "pake", .str "x", 4, .null⟩]
+      nextNp := 3 } := by decide +kernel
+
+/-- app "a"'s mailbox, side row, message, nameplate and claim are gone … -/
+example : (g0.sys.step closeA).db =
+    { nameplates := [⟨2, "b", "4", "m2"⟩], npSides := [⟨2, true, "s1", 2⟩], mailboxes := [⟨"b", "m2", 4, true⟩],
+      mbSides := [⟨"m2", true, "s1", 2, none⟩],
+      messages := [⟨"b", "m2", "s1", .str "pake", .str "x", 4, .null⟩], nextNp := 3 } := by decide +kernel
+
+/-- … and b's rows are the same, by evaluation … -/
+example : Chan.SameB "b" g0.sys.db (g0.sys.step closeA).db :=
+  ⟨by decide +kernel, by decide +kernel, by decide +kernel, by decide +kernel, by decide +kernel⟩
+
+/-- … and by the theorem -/
+example : Chan.SameB "b" g0.sys.db (g0.sys.step closeA).db :=
+  (Sys.recv_frameB g0_ginv "b" closeA_wf closeA_other).1.db
+
+/-- usage rows were written for app "a" only -/
+example : Usage.SameB "b" g0.sys.udb (g0.sys.step closeA).udb ∧
+    ((g0.sys.step closeA).udb.mailboxes.map (·.app), (g0.sys.step closeA).udb.nameplates.map (·.app)) =
+      (["a"], ["a"]) :=
+  ⟨⟨by decide +kernel, by decide +kernel, by decide +kernel⟩, by decide +kernel⟩
+
+/-- the frames of the step (`ack`, `closed`) go to connection 1, the only one bound to another app -/
+example : otherIds "b" (g0.sys.step closeA).conns = [1] ∧
+    ∀ e ∈ (g0.sys.step closeA).out, FrameTo (otherIds "b" (g0.sys.step closeA).conns) e := by decide +kernel
+
+end IsoFrameExample
+
 end Wormhole
